@@ -10,6 +10,7 @@ CONSTANTS
   TG = "t11s"
   LAYOUTS = {"dfs"}
   EMIT = TRUE
+VIEW View
 INVARIANTS LawPrune LawCache LawEffective ResultWellFormed
 ACTION_CONSTRAINT Emit
 CHECK_DEADLOCK FALSE
